@@ -326,7 +326,12 @@ impl Loop3D {
             let a = self.vertices[n - 2];
             let b = self.vertices[n - 1];
 
-            if a.is_collinear(b, point)? {
+            if a.compare(point) {
+                // going straight back to the previous vertex: the spike
+                // a -> b -> a encloses nothing, so drop it instead of
+                // storing a twice
+                self.vertices.pop();
+            } else if a.is_collinear(b, point)? {
                 // if it is collinear, update last point instead of
                 // adding a new one
                 self.vertices[n - 1] = point;
